@@ -2496,10 +2496,33 @@ class C17(TraceCheck):
         cfg = self.cfg(rng)
         inputs = [{"kind": "priv", "t": "I", "v": rng.choice([0, 1, 2, 3, 4, 6])} for _ in range(rng.randrange(1, 3))]
         body = []
+        shared = []
+        if rng.random() < 0.4:
+            # argument objects that are reused: passed to several calls, twice to one call, aliased rows
+            for j in range(rng.randrange(1, 3)):
+                lv = []
+                item = self.gen_struct(rng, rng.choice([0, 1]), lv, [4])
+                if rng.random() < 0.4:
+                    val = {"struct": "alias_list", "item": {"struct": "list", "items": [item]}, "n": 2}
+                    lv = lv + lv
+                else:
+                    val = {"struct": "list", "items": [item, self.gen_struct(rng, 0, lv, [2])]}
+                shared.append(("_a%d" % j, val, lv))
+                body.append({"s": "snark_args", "name": "_a%d" % j, "value": val})
         for _ in range(rng.randrange(1, 5)):
             leaves = []
             budget = [8]
             args = [self.gen_struct(rng, rng.choice([0, 1, 2, 3]), leaves, budget) for _ in range(rng.randrange(0, 4))]
+            for nm, val, lv in shared:
+                for _rep in range(rng.choice([0, 1, 1, 2])):
+                    if len(leaves) + len(lv) <= 12:
+                        pos = rng.randrange(0, len(args) + 1)
+                        # leaves are numbered in traversal order: rebuild the numbering afterwards
+                        args.insert(pos, {"argvar": nm})
+            if shared:
+                leaves = []
+                for a in args:
+                    _collect_leaves(a, leaves, {nm: val for nm, val, lv in shared})
             ret = self.gen_ret(rng, rng.choice([0, 1, 2]), leaves, [6])
             st = {"s": "snark_call", "args": args, "ret": ret, "try": True}
             if rng.random() < 0.08:
@@ -2527,6 +2550,10 @@ class C17(TraceCheck):
         for v in tr.violations:
             if v["property"] == "C01":
                 add("unsat_constraint", {"op": v["site"].get("op")}, v["detail"])
+        _ARGVARS.clear()
+        for s_ in plan["body"]:
+            if s_["s"] == "snark_args":
+                _ARGVARS[s_["name"]] = s_["value"]
         calls = [s for s in plan["body"] if s["s"] == "snark_call"]
         t_caught = {}
         for (site, cls, msg) in tr.caught:
@@ -2625,12 +2652,35 @@ class C17(TraceCheck):
                     yield c
 
 
+_ARGVARS = {}
+
+
 def _struct_to_py(v):
+    if isinstance(v, dict) and "argvar" in v:
+        return _struct_to_py(_ARGVARS[v["argvar"]])
+    if isinstance(v, dict) and v.get("struct") == "alias_list":
+        return [_struct_to_py(v["item"]) for _ in range(v["n"])]
     if isinstance(v, dict) and v.get("struct") in ("list", "tuple"):
         return [_struct_to_py(x) for x in v["items"]]
     if isinstance(v, dict) and v.get("struct") == "dict":
         return {k: _struct_to_py(x) for k, x in v["items"]}
     return _Leaf(v)
+
+
+def _collect_leaves(v, out, argvars):
+    if isinstance(v, dict) and "argvar" in v:
+        _collect_leaves(argvars[v["argvar"]], out, argvars)
+    elif isinstance(v, dict) and v.get("struct") == "alias_list":
+        for _ in range(v["n"]):
+            _collect_leaves(v["item"], out, argvars)
+    elif isinstance(v, dict) and v.get("struct") in ("list", "tuple"):
+        for x in v["items"]:
+            _collect_leaves(x, out, argvars)
+    elif isinstance(v, dict) and v.get("struct") == "dict":
+        for k, x in v["items"]:
+            _collect_leaves(x, out, argvars)
+    else:
+        out.append(v)
 
 
 class _Leaf:
